@@ -404,7 +404,7 @@ def _working_fno(finite):
         class Obj:
             is_infinite = not finite
 
-        class Opt:
+        class Opt(StubBase):
             paraxial = Px()
             object_surface = Obj()
         o = object.__new__(M.FFTMTF)
